@@ -15,13 +15,14 @@ func (vNopLog) Printf(format string, v ...any) {}
 
 // vRouter plays the router on the other end of the client's peer.
 type vRouter struct {
-	peer     wamp.Peer
-	got      []wamp.Message // everything the client sent
-	auto     bool           // answer requests automatically
-	nextID   wamp.ID
-	stop     chan struct{}
-	stopped  chan struct{}
-	holdCall bool // do not answer CALLs automatically
+	peer           wamp.Peer
+	got            []wamp.Message // everything the client sent
+	auto           bool           // answer requests automatically
+	nextID         wamp.ID
+	stop           chan struct{}
+	stopped        chan struct{}
+	holdCall       bool // do not answer CALLs automatically
+	swallowGoodbye bool // read the client's GOODBYE, never answer it
 }
 
 var vRouterRoles = wamp.Dict{"roles": wamp.Dict{
@@ -51,6 +52,9 @@ func (v *vRouter) reply(m wamp.Message) wamp.Message {
 			return &wamp.Result{Request: mm.Request, Details: wamp.Dict{}, Arguments: mm.Arguments}
 		}
 	case *wamp.Goodbye:
+		if v.swallowGoodbye {
+			return nil
+		}
 		return &wamp.Goodbye{Reason: wamp.ErrGoodbyeAndOut, Details: wamp.Dict{}}
 	}
 	return nil
